@@ -22,7 +22,7 @@ CONSTANTS
   IgnorePatterns <- DataIgnorePatterns
   EaExts <- DataEaExts
   SkipUnservable = %(skip)s
-  SortedEnum = TRUE
+  SortedLinks = TRUE
   DotRuleAll = TRUE
   Scopes <- %(scopes)s
   OrderModes = {%(orders)s}
